@@ -353,6 +353,12 @@ fn run() {
                 updrun::run(&mut report, replay.as_deref());
                 report.rule = format!("{rule} + prune half: {}", report.rule);
             }
+            if prop == "C06" {
+                // unlocked runs against a registry whose publisher records change between runs
+                let rule = report.rule.clone();
+                cmd::run(&mut report);
+                report.rule = format!("{rule} + command layer: successful unlocked checks re-derived from the records with the publisher table rebuilt from what the registry serves now");
+            }
             if prop == "C02" {
                 // exit status and printed conclusion of the real cmd_check
                 let rule = report.rule.clone();
